@@ -19,6 +19,16 @@ close() raises IOError (swallowed by the frontend), other driver calls raise
 IOError - and the programs go on using the frontend from the same and from
 other threads.
 
+Legs `interrupt` / `preempt-interrupt`: connect() is LEFT BY
+KeyboardInterrupt - raised by the terminate callback, by an on-startup /
+on-discover / on-connect / on-release callback or by the driver under the
+program's main thread (Ctrl-C) - while other threads use the frontend, and
+the programs go on afterwards.  In these legs the frontend's lock has the
+semantics of the real threading.Lock (no owner: ANY thread can release a
+locked lock; vsched opt-in `unowned_release`), so that a release by a thread
+that does not hold the lock shows as what it causes - a second thread inside
+the driver - and not as an error of the harness' lock.
+
 Schedules: generated choice lists, and (leg `preempt`) every position of one
 forced preemption for fixed two/three-thread programs.  As a coverage
 measure the syntactic `self.device.<m>(...)` call sites of ContactlessFrontend
@@ -46,6 +56,13 @@ ASSUMPTIONS = [
     "yield inside every driver call; byte-code level races are not explored",
     "the per-call-site clause is measured (static sites vs sites exercised), "
     "not established syntactically",
+    "interrupt legs: KeyboardInterrupt is raised by connect()'s callbacks "
+    "(any thread, a callback is application code) and by driver calls of the "
+    "program's main thread app0 only (Python delivers SIGINT to the main "
+    "thread), not at other byte-code positions and not inside the driver's "
+    "close(); the frontend lock there behaves like the real threading.Lock "
+    "(release by a non-owner succeeds, release of an unlocked lock raises "
+    "RuntimeError), all other legs keep the owner-checking harness lock",
 ]
 
 
@@ -75,6 +92,16 @@ class World(object):
         self.failed_closes = 0
         self.failed_calls = 0
         self.ops_after_failure = 0
+        # interrupts: the k-th driver call (close excepted) made by the
+        # program's main thread app0 raises KeyboardInterrupt for k in kbi_at
+        self.kbi_at = ()
+        self.kbi_delay = 0          # x 0.1 ms spent in an interrupting callback
+        self.main_calls = 0
+        self.kbi_raised = 0         # KeyboardInterrupts raised in all
+        self.kbi_busy = 0           # .. while another thread was in the driver
+        self.kbi_connect_false = 0  # connect() returned False after one
+        self.ops_after_kbi = 0
+        self.ops_after_busy_kbi = 0
 
 
 class ProxyDevice(nfc.clf.device.Device):
@@ -120,6 +147,18 @@ class ProxyDevice(nfc.clf.device.Device):
             s.sleep(0.0005)       # the driver call takes time: others run
         finally:
             w.inside.remove((me.name, name))
+        if held and getattr(lock, "owner", None) is not me:
+            # "calls into the driver while holding the lock": it was taken
+            # away (released by a thread that did not hold it) during the call
+            w.violations.append(("lock-lost-during-driver-call", func, name,
+                                 "%s, lock owner now %r" % (
+                                     me.name, getattr(lock.owner, "name",
+                                                      None))))
+        if name != "close" and me.name == "app0" and w.kbi_at:
+            k = w.main_calls
+            w.main_calls += 1
+            if k in w.kbi_at:
+                kbi(w)              # Ctrl-C while the main thread is here
         if name != "close" and n in w.fail_at:
             # the host link broke during this call
             w.failed_calls += 1
@@ -232,6 +271,79 @@ class ProxyDevice(nfc.clf.device.Device):
 
 
 # ---------------------------------------------------------------- programs
+def kbi(w):
+    """raise KeyboardInterrupt in the running thread, with book-keeping"""
+    me = vsched.current().me().name
+    w.kbi_raised += 1
+    if any(who != me for who, _ in w.inside):
+        w.kbi_busy += 1
+    raise KeyboardInterrupt()
+
+
+KBI_POINTS = {
+    "rdwr": ("terminate", "on-startup", "on-discover", "on-connect",
+             "on-release"),
+    "card": ("terminate", "on-startup", "on-discover", "on-connect",
+             "on-release"),
+    "llcp": ("terminate", "on-startup"),
+}
+# "kbi/<mode>/<callback>/<n>": connect(<mode>=...) whose <callback> raises
+# KeyboardInterrupt (terminate: on its n-th call, counted from 0)
+KBI_OPS = ["kbi/%s/%s/%d" % (mode, point, n)
+           for mode in ("rdwr", "card", "llcp")
+           for point in KBI_POINTS[mode]
+           for n in (range(6) if point == "terminate" and mode != "llcp"
+                     else range(3) if point == "terminate" else (0,))]
+
+
+def do_kbi_connect(w, op):
+    _, mode, where, n = op.split("/")
+    n = int(n)
+    state = {"k": 0, "raised": False}
+
+    def boom():
+        state["raised"] = True
+        if w.kbi_delay:
+            # the callback takes a little time before the interrupt arrives
+            vsched.current().sleep(0.0001 * w.kbi_delay)
+        kbi(w)
+
+    def terminate():
+        k = state["k"]
+        state["k"] += 1
+        if where == "terminate" and k == n:
+            boom()
+        return k >= (8 if mode == "rdwr" else 4)
+
+    def cb(point, fn):
+        def call(arg):
+            if where == point:
+                boom()
+            return fn(arg)
+        return call
+
+    def card_startup(target):
+        target.brty = "212F"
+        target.sensf_res = bytearray.fromhex(
+            "0102FE010203040506FFFFFFFFFFFFFFFF12FC")
+        return target
+    options = {"on-startup": cb("on-startup", card_startup if mode == "card"
+                                else lambda x: x),
+               "on-connect": cb("on-connect", lambda x: True),
+               "on-release": cb("on-release", lambda x: True)}
+    if mode != "llcp":
+        options["on-discover"] = cb("on-discover", lambda x: True)
+    if mode == "rdwr":
+        options.update({"iterations": 1, "interval": 0.05,
+                        "beep-on-connect": bool(n & 1)})
+    if mode == "llcp":
+        options.update({"role": "target", "lto": 100})
+    r = w.clf.connect(terminate=terminate, **{mode: options})
+    if state["raised"] and r is False:
+        # "returns False when terminated by KeyboardInterrupt"
+        w.kbi_connect_false += 1
+
+
 OPS = ["open", "close", "sense-a", "sense-af", "sense-f", "sense-b",
        "sense-dep", "listen-tta", "listen-ttb", "listen-dep",
        "listen-ttf", "exchange", "max-send", "max-recv", "connect-rdwr",
@@ -243,6 +355,12 @@ def do_op(w, op):
     clf = w.clf
     if w.failed_closes or w.failed_calls:
         w.ops_after_failure += 1
+    if w.kbi_raised:
+        w.ops_after_kbi += 1
+    if w.kbi_busy:
+        w.ops_after_busy_kbi += 1
+    if op.startswith("kbi/"):
+        return do_kbi_connect(w, op)
     if op == "open":
         clf.open("usb")
     elif op == "close":
@@ -317,8 +435,14 @@ def run(case, ctx):
                      step_budget=200000)
     if case.get("force"):
         s.forced = dict((int(p), int(k)) for p, k in case["force"])
+    interrupts = bool(case.get("interrupts"))
+    if interrupts:
+        # the real threading.Lock has no owner: any thread can release it
+        s.unowned_release = True
     vsched.activate(s)
     w = World()
+    w.kbi_at = frozenset(int(x) for x in case.get("kbi_at", []))
+    w.kbi_delay = case.get("kbi_delay", 0)
     w.tag_checks = case.get("tag_checks", 3)
     w.reader_visits = case.get("reader_visits", 1)
     w.close_fail = [bool(x) for x in case.get("close_fail", [])]
@@ -341,6 +465,10 @@ def run(case, ctx):
                     except (IOError, nfc.clf.Error, ValueError,
                             SystemExit) as e:
                         other.append((op, type(e).__name__))
+                    except KeyboardInterrupt as e:
+                        # outside connect() (and from its on-startup phase)
+                        # the interrupt reaches the application
+                        other.append((op, type(e).__name__))
                     except BaseException as e:
                         other.append((op, "UNEXPECTED:%r" % (e,)))
             return body
@@ -358,7 +486,8 @@ def run(case, ctx):
     for func, name in sorted(w.sites):
         ctx.label("site:%s->%s" % (func, name))
     if w.overlap_window:
-        ctx.nontrivial()
+        if not interrupts:          # (the interrupt legs have their own rule)
+            ctx.nontrivial()
         ctx.label("driver-call-while-another-thread-waits")
     if w.failed_closes:
         ctx.label("driver-close-raised")
@@ -367,6 +496,17 @@ def run(case, ctx):
     if w.ops_after_failure:
         ctx.label("operation-after-driver-failure")
         if case.get("close_fail") or case.get("fail_at"):
+            ctx.nontrivial()
+    if interrupts:
+        if w.kbi_raised:
+            ctx.label("keyboard-interrupt-raised")
+        if w.kbi_connect_false:
+            ctx.label("connect-returned-False-after-KeyboardInterrupt")
+        if w.kbi_busy:
+            ctx.label("interrupt-while-another-thread-in-driver-call")
+        if w.ops_after_kbi:
+            ctx.label("operation-after-interrupt")
+        if w.kbi_busy and w.ops_after_busy_kbi:
             ctx.nontrivial()
     if w.violations:
         kind, func, name, who = w.violations[0]
@@ -416,6 +556,50 @@ def programs_failing():
         "seed": st.integers(0, 255)})
 
 
+def programs_interrupt():
+    """programs in which at least one connect() is left by KeyboardInterrupt
+    (callback) and / or the main thread's driver calls are interrupted"""
+    op = st.one_of(st.sampled_from(OPS), st.sampled_from(OPS),
+                   st.sampled_from(KBI_OPS))
+    prog = st.lists(op, min_size=1, max_size=5)
+
+    @st.composite
+    def s(draw):
+        progs = draw(st.lists(prog, min_size=2, max_size=4))
+        # one interrupted connect() for sure, mostly not as the last operation
+        # of its thread: what runs after the interrupt is the point
+        t = draw(st.integers(0, len(progs) - 1))
+        at = draw(st.integers(0, max(0, len(progs[t]) - 1)))
+        progs[t].insert(at, draw(st.sampled_from(KBI_OPS)))
+        if at == len(progs[t]) - 1:
+            progs[t].append(draw(st.sampled_from(
+                ["max-send", "max-recv", "exchange", "sense-a", "close",
+                 "listen-tta"])))
+        return {"programs": progs, "interrupts": True,
+                "kbi_at": draw(st.lists(st.integers(0, 12), max_size=2)),
+                "kbi_delay": draw(st.sampled_from([0, 1, 1, 2, 3, 7, 40])),
+                "opened": True,
+                "tag_checks": draw(st.integers(0, 5)),
+                "reader_visits": draw(st.integers(0, 2)),
+                "choices": draw(st.lists(st.integers(0, 3), max_size=60)),
+                "seed": draw(st.integers(0, 255))}
+    return s()
+
+
+# (programs, kbi_at)
+FIXED_KBI = [
+    ([["kbi/rdwr/terminate/0", "max-send"], ["exchange", "sense-a"]], []),
+    ([["sense-a", "kbi/rdwr/on-connect/0", "exchange"],
+      ["listen-tta", "max-recv"]], []),
+    ([["kbi/card/terminate/1", "sense-f"], ["sense-af"], ["max-send"]], []),
+    ([["kbi/rdwr/on-release/0", "close"], ["exchange", "exchange"]], []),
+    ([["kbi/llcp/terminate/1", "max-recv"], ["connect-rdwr-stay"]], []),
+    ([["kbi/rdwr/on-discover/0", "sense-a"], ["connect-card"]], []),
+    ([["connect-rdwr-stay", "exchange"], ["sense-af", "max-send"]], [3]),
+    ([["kbi/card/on-connect/0", "listen-ttb"], ["open", "sense-a"]], []),
+]
+
+
 # (programs, close_fail, fail_at)
 FIXED_FAIL = [
     ([["close"], ["sense-a", "exchange", "max-send"]], [True], []),
@@ -447,14 +631,23 @@ def enum_preempt_failing(tier, seed):
     return enum_preempt(tier, seed, FIXED_FAIL)
 
 
+def enum_preempt_interrupt(tier, seed):
+    return enum_preempt(tier, seed, [(progs, [], [], kbi_at, delay)
+                                     for progs, kbi_at in FIXED_KBI
+                                     for delay in (0, 1, 3, 7)])
+
+
 def enum_preempt(tier, seed, fixed=None):
     if fixed is None:
         fixed = [(progs, [], []) for progs in FIXED]
-    for progs, close_fail, fail_at in fixed:
+    for entry in fixed:
+        progs, close_fail, fail_at = entry[:3]
         base = {"programs": progs, "opened": True, "tag_checks": 2,
                 "choices": [], "seed": 0}
         if close_fail or fail_at:
             base.update(close_fail=close_fail, fail_at=fail_at)
+        if len(entry) > 3:
+            base.update(interrupts=True, kbi_at=entry[3], kbi_delay=entry[4])
         try:
             points, _ = run(dict(base), _Ctx())
         except Violation:
@@ -544,6 +737,35 @@ LEGS = [
              "same or another thread x one forced preemption (two "
              "alternative threads) at every scheduling point."
              % len(FIXED_FAIL)),
+    Leg("interrupt", run=run, gen=lambda tier: programs_interrupt(),
+        quick=2500, thorough=50000, shards_quick=6, shards_thorough=16,
+        nt_floor=0.3,
+        rule="2-4 threads x up to 6 operations out of the 20 entry point uses "
+             "and %d interrupted connects: connect(rdwr | card | llcp) whose "
+             "terminate callback (on its n-th call), on-startup, on-discover, "
+             "on-connect or on-release callback raises KeyboardInterrupt - at "
+             "least one per case, followed by a further operation of the same "
+             "thread, the callback taking 0 - 4 ms before it raises - and up to 2 driver calls of the program's main thread "
+             "(by call index, close() excepted) that raise KeyboardInterrupt "
+             "(Ctrl-C reaches the main thread only); x schedule choice list. "
+             "The frontend lock has the real threading.Lock semantics (any "
+             "thread can release a locked lock). Oracle as everywhere: lock "
+             "owned by the caller at every driver entry and still at the end "
+             "of the driver call, no two threads inside driver calls, no call "
+             "on a closed device. Non-trivial = a KeyboardInterrupt was "
+             "raised while ANOTHER thread was inside a driver call and a "
+             "frontend operation was started after that." % len(KBI_OPS)),
+    Leg("preempt-interrupt", run=run, enum=enum_preempt_interrupt,
+        exhaustive=True, shards_quick=8, shards_thorough=16,
+        rule="%d fixed 2-3 thread programs in which connect() is left by "
+             "KeyboardInterrupt (terminate / on-discover / on-connect / "
+             "on-release callback of rdwr, card and llcp connects, one "
+             "interrupted driver call) before further operations of the same "
+             "thread, next to threads that sense / listen / exchange / "
+             "connect x {0, 0.1, 0.3, 0.7} ms spent in the interrupting "
+             "callback x one forced preemption (two alternative threads) at "
+             "every scheduling point; real threading.Lock semantics for the "
+             "frontend lock." % len(FIXED_KBI)),
     Leg("preempt", run=run, enum=enum_preempt, exhaustive=True,
         shards_quick=8, shards_thorough=16,
         rule="fixed 2-3 thread programs x one forced preemption (two "
